@@ -9,7 +9,7 @@
    Every step is judged on its own, from the implementation's own before-state (the reference is
    re-synchronised to the implementation's layout after every step), so a layout the reference would not
    have chosen is never a verdict.  Per step at most one C04 line and one C05 line is printed:
-       <<"VERDICT", tid, l, clause, "C04"|"C05", call name>>
+       <<"VERDICT", tid, l, clause, "C04"|"C05">>
    and, for histories with drift = TRUE (replays of CircuitRef transitions), <<"DRIFT", tid, l, call name>>
    when the implementation's layout differs from the reference layout Ref(call, before).
 
@@ -112,7 +112,7 @@ Check ==
   ELSE LET s == S  B == T.snaps[s.b]  A == T.snaps[s.a]
            v4 == IF Prop = "C05" THEN "ok" ELSE V4(s, B, A)
            v5 == IF Prop = "C04" THEN "ok" ELSE V5(s, B, A) IN
-       /\ IF v4 = "ok" THEN TRUE ELSE PrintT(<<"VERDICT", tid, l, v4, "C04", s.call.name>>)
-       /\ IF v5 = "ok" THEN TRUE ELSE PrintT(<<"VERDICT", tid, l, v5, "C05", s.call.name>>)
+       /\ IF v4 = "ok" THEN TRUE ELSE PrintT(<<"VERDICT", tid, l, v4, "C04">>)
+       /\ IF v5 = "ok" THEN TRUE ELSE PrintT(<<"VERDICT", tid, l, v5, "C05">>)
        /\ IF Drifted(s, B, A) THEN PrintT(<<"DRIFT", tid, l, s.call.name>>) ELSE TRUE
 =============================================================================
